@@ -28,9 +28,9 @@ MUTANTS = [
  ("rlock-unlock-releases-all-depths", "server/db.go",
   "		if command.Rcount > 0 && command.TimeoutFlag&protocol.TIMEOUT_FLAG_RCOUNT_IS_PRIORITY == 0 {\n			currentLock.locked--",
   "		if command.Rcount == 0 && command.TimeoutFlag&protocol.TIMEOUT_FLAG_RCOUNT_IS_PRIORITY == 0 {\n			currentLock.locked--", "rlock-not-exclusive"),
- ("rlock-unlock-never-releases-last-depth", "server/db.go",
-  "			currentLock.locked--\n			lockManager.locked--\n			if currentLock.locked == 0 {\n				unlocked = true",
-  "			currentLock.locked--\n			lockManager.locked--\n			if currentLock.locked == 0xff {\n				unlocked = true", "(rlock) any"),
+ ("rlock-relock-counts-twice", "server/db.go",
+  "				lockManager.locked++\n				currentLock.locked++\n				currentLockCommand := currentLock.command",
+  "				lockManager.locked += 2\n				currentLock.locked += 2\n				currentLockCommand := currentLock.command", "rlock-unlock-count"),
  ("prio-client-drops-priority-flag", "client/prioritylock.go",
   "func (self *PriorityLock) Lock() (*protocol.LockResultCommand, error) {\n	self.lock = &Lock{self.db, self.db.GenLockId(), self.lockKey, self.timeout | uint32(protocol.TIMEOUT_FLAG_RCOUNT_IS_PRIORITY)<<16,",
   "func (self *PriorityLock) Lock() (*protocol.LockResultCommand, error) {\n	self.lock = &Lock{self.db, self.db.GenLockId(), self.lockKey, self.timeout,", "prio-handover-not-highest"),
@@ -41,9 +41,9 @@ MUTANTS = [
  ("event-wait-timeout-is-success", "client/event.go",
   "	self.waitLock = &Lock{self.db, self.db.GenLockId(), self.eventKey, timeout | 0x02000000, 0, 1, 0}\n	result, err := self.waitLock.Lock()\n	if err == nil {\n		return result, nil\n	}\n	if result != nil && result.Result == protocol.RESULT_TIMEOUT {\n		return result, WaitTimeout",
   "	self.waitLock = &Lock{self.db, self.db.GenLockId(), self.eventKey, timeout | 0x02000000, 0, 1, 0}\n	result, err := self.waitLock.Lock()\n	if err == nil {\n		return result, nil\n	}\n	if result != nil && result.Result == protocol.RESULT_TIMEOUT {\n		return result, nil", "event-wait-before-set"),
- ("event-default-set-wait-ignores-clear", "client/event.go",
-  "		self.waitLock = &Lock{self.db, self.db.GenLockId(), self.eventKey, timeout, 0, 0, 0}\n		result, err := self.waitLock.Lock()",
-  "		self.waitLock = &Lock{self.db, self.db.GenLockId(), self.eventKey, timeout, 0, 0xffff, 0}\n		result, err := self.waitLock.Lock()", "event-wait-before-set"),
+ ("event-default-set-wait-timeout-is-success", "client/event.go",
+  "func (self *Event) Wait(timeout uint32) (*protocol.LockResultCommand, error) {\n	if self.setedMode == EVENT_MODE_DEFAULT_SET {\n		self.waitLock = &Lock{self.db, self.db.GenLockId(), self.eventKey, timeout, 0, 0, 0}\n		result, err := self.waitLock.Lock()\n		if err == nil {\n			return result, nil\n		}\n		if result != nil && result.Result == protocol.RESULT_TIMEOUT {\n			return result, WaitTimeout",
+  "func (self *Event) Wait(timeout uint32) (*protocol.LockResultCommand, error) {\n	if self.setedMode == EVENT_MODE_DEFAULT_SET {\n		self.waitLock = &Lock{self.db, self.db.GenLockId(), self.eventKey, timeout, 0, 0, 0}\n		result, err := self.waitLock.Lock()\n		if err == nil {\n			return result, nil\n		}\n		if result != nil && result.Result == protocol.RESULT_TIMEOUT {\n			return result, nil", "event-wait-before-set"),
  ("server-admits-one-more", "server/db.go",
   "	if lockManager.locked <= uint32(lockManager.currentLock.command.Count) {\n		if lockManager.locked <= uint32(lock.command.Count) {",
   "	if lockManager.locked <= uint32(lockManager.currentLock.command.Count)+1 {\n		if lockManager.locked <= uint32(lock.command.Count)+1 {", "sem/flow-over-capacity"),
